@@ -152,10 +152,10 @@ def parse_ctx(cl):
     while i<len(cl):
         l=cl[i]
         if l.strip()=="": i+=1; continue
-        assert l.startswith(M['ind']), l
+        if not l.startswith(M['ind']): raise ValueError(('child indicator expected', l))
         sub=[l[2:]]; i+=1
         while i<len(cl) and not cl[i].startswith(M['ind']):
-            assert cl[i].startswith("  "), cl[i]
+            if not cl[i].startswith("  "): raise ValueError(('child continuation expected', cl[i]))
             sub.append(cl[i][2:]); i+=1
         # a child is either a context (ctx-level lines) or a stack (body lines): same marker grammar
         while sub and sub[-1].strip()=="": sub.pop()
@@ -242,10 +242,10 @@ def parse_ctx(cl):
     while i<len(cl):
         l=cl[i]
         if l.strip()=="": i+=1; continue
-        assert l.startswith(M['ind']), l
+        if not l.startswith(M['ind']): raise ValueError(('child indicator expected', l))
         sub=[l[2:]]; i+=1
         while i<len(cl) and not cl[i].startswith(M['ind']):
-            assert cl[i].startswith("  "), cl[i]
+            if not cl[i].startswith("  "): raise ValueError(('child continuation expected', cl[i]))
             sub.append(cl[i][2:]); i+=1
         # a child is either a context (ctx-level lines) or a stack (body lines): same marker grammar
         while sub and sub[-1].strip()=="": sub.pop()
